@@ -34,6 +34,11 @@ Ladder(o) ==
     [] o = 6 -> << [RUt("CWoff", "Cold", TMin - 100, TMin - 90) EXCEPT !.active = FALSE],   \* listed but switched off: must be ignored
                    [RUt("HPoff", "Hot", TMax + 200, TMax + 190) EXCEPT !.active = FALSE],
                    RUt("AIR", "Cold", TMin + 150, TMin + 160) >>                            \* an active cold utility that is too warm
+    [] o = 7 -> << RUt("HW", "Hot", TMin + 150, TMin + 250),                \* a gliding hot utility entered "backwards" (supply below
+                   RUt("CW", "Cold", TMin - 100, TMin - 50) >>              \*   target): accepted and normalised by the library (seed C03d)
+    [] o = 8 -> << RUt("HPS", "Hot", TMin + 250, TMin + 250),               \* two hot utilities with one and the same supply temperature
+                   RUt("OIL", "Hot", TMin + 250, TMin + 150),               \*   (seed C09d)
+                   RUt("CW", "Cold", TMin - 100, TMin - 50) >>
     [] o = 5 -> << RUt("USE", "Hot", TMin + 30, TMin + 20),                 \* for the fine lattice {120,130,140}: use at 150->140,
                    RUt("GEN", "Cold", TMin - 20, TMin - 10) >>              \*   generation at 100->110 (0.4 K below, inside the 1 K window)
 
@@ -41,6 +46,7 @@ Ladder(o) ==
 Rev(s) == [i \in 1..Len(s) |-> s[Len(s) + 1 - i]]
 Wide(S) == { i \in 1..Len(S) : S[i].hi - S[i].lo >= 200 }
 Thick(S) == { i \in 1..Len(S) : S[i].cp >= 2 /\ S[i].hi - S[i].lo > 1 }
+Twin(S)  == { i \in 1..Len(S) : S[i].cp = 2 /\ S[i].hi - S[i].lo > 1 }       \* splits into two EQUAL branches
 SplitAt(S, z, i) ==     \* stream i cut at the lattice temperature lo + 100
   [ S |-> SubSeq(S, 1, i - 1) \o << [S[i] EXCEPT !.hi = S[i].lo + 100], [S[i] EXCEPT !.lo = S[i].lo + 100] >> \o SubSeq(S, i + 1, Len(S)),
     z |-> SubSeq(z, 1, i - 1) \o << z[i], z[i] >> \o SubSeq(z, i + 1, Len(z)) ]
@@ -58,6 +64,11 @@ Variants(S, z, lo) ==
   \o << [g |-> "zoneswap", S |-> S, z |-> [i \in 1..Len(z) |-> IF z[i] = 1 THEN 2 ELSE IF z[i] = 2 THEN 1 ELSE z[i]], lo |-> lo] >>
   \o << [g |-> "nest", S |-> S, z |-> z, lo |-> lo] >>          \* zone 2 labelled "Z2/U2/V2": three process levels deep
   \o << [g |-> "dup", S |-> S, z |-> z, lo |-> lo] >>           \* zone k labelled "A<k>/X": the same leaf name in different branches
+  \* explicit zone tree Site -> {Z1, Z2, ...}; a stream of CP 2 is entered as two identical rows (same name, CP 1 each): seed C12d
+  \o (IF Twin(S) # {} THEN << [g |-> "tree"] @@ Parallel(S, z, Min(Twin(S))) @@ [lo |-> lo, twin |-> Min(Twin(S))] >>
+                       ELSE << [g |-> "tree", S |-> S, z |-> z, lo |-> lo, twin |-> 0] >>)
+  \* explicit zone tree with a site inside the site:  Site -> { North (a site) -> {Z1}, Z2, ... }  (seed C02d)
+  \o << [g |-> "subsite", S |-> S, z |-> z, lo |-> lo] >>
   \o << [g |-> "translate", S |-> S, z |-> z, lo |-> lo] >>
   \o << [g |-> "scale", S |-> S, z |-> z, lo |-> lo] >>
   \o (IF lo = 0 THEN << [g |-> "mirror", S |-> Mirror(S), z |-> z, lo |-> lo] >> ELSE <<>>)
